@@ -267,6 +267,7 @@ Proof.
     + rewrite F8, E13. simpl. assumption.
     + rewrite F15, F2, E20, E5. simpl. assumption.
     + rewrite F8, F16, E13, E21. simpl. assumption.
+    + rewrite F11, F8, F15, E16, E13, E20. simpl. assumption.
 Qed.
 
 Lemma set_panic_done p s : done (set_panic p s) = done s.
